@@ -23,6 +23,9 @@ CONSTANTS
   PREC,        \* LegacyDec unit (10^18 in the code)
   UNBOND,      \* operatortypes.UnbondingExpiration (10)
   HOLDOPS,     \* operators for which the dogfood hook places a hold on a new undelegation
+  HOOKED,      \* TRUE: the entry path reaches the delegation hooks (keeper of the app / message path).
+               \* FALSE: the precompile path - app.go hands the precompiles a COPY of the delegation
+               \* keeper taken before SetHooks, so AfterUndelegationStarted is a no-op there
   DECI,        \* [asset -> decimals]
   PRICE,       \* [asset -> latest oracle price] (0 = asset unknown to the oracle)
   PDEC         \* [asset -> price decimals]
@@ -268,7 +271,7 @@ DeleteRecord(st, r) ==
 \* dogfood's AfterUndelegationStarted as seen by the ledger: a hold is placed for
 \* operators in HOLDOPS (interface abstraction, DESIGN.md 3.3)
 HookUndelegationStarted(st, o, k) ==
-  IF o \in HOLDOPS THEN Ok([st EXCEPT !.hold = Put(@, k, HoldOf(st, k) + 1)]) ELSE Ok(st)
+  IF HOOKED /\ o \in HOLDOPS THEN Ok([st EXCEPT !.hold = Put(@, k, HoldOf(st, k) + 1)]) ELSE Ok(st)
 
 (***************************************************************************)
 (* delegation.go: UndelegateFrom  a = [s, a, o, x, nonce, txh]              *)
@@ -555,7 +558,7 @@ Goals(pre, ev, a, r) ==
          G(ok /\ NIsZero(post.del[<<a.s, a.a, a.o>>].sh) /\ NIsPos(post.pool[<<a.o, a.a>>].tsh), "und_full_exit_others_remain") \cup
          G(ok /\ NIsZero(post.pool[<<a.o, a.a>>].tsh), "und_last_share") \cup
          G(ok /\ RateSkewed(pre, a.o, a.a), "und_skewed_rate") \cup
-         G(ok /\ a.o \in HOLDOPS, "und_hold_placed") \cup
+         G(ok /\ HOOKED /\ a.o \in HOLDOPS, "und_hold_placed") \cup
          G(ok /\ KIND[a.a] = "nat", "und_native") \cup
          G(ok /\ KIND[a.a] # "nat" /\ pre.assoc[a.s] = a.o, "und_self") \cup
          G(ok /\ \E k \in DOMAIN pre.recs : pre.recs[k].s = a.s /\ pre.recs[k].a = a.a, "und_second_pending_same_staker_asset") \cup
